@@ -12,11 +12,30 @@ Proof. repeat split; reflexivity. Qed.
 
 (* a pack that a non-instant run decides to mark (MarkDelete, or Repack: marked after its used blobs
    were copied) is listed in `packs_to_delete` of the new index with the time of this run *)
+(* the time a delete mark written by this run carries *)
+Definition mark_time (o : popts) : Z := if marks_restamped then o_rel o else o_now o.
+
+Lemma restamp_now : forall o, restamp o (Some (o_now o)) = Some (mark_time o).
+Proof. intro o. unfold restamp, mark_time. destruct marks_restamped; [rewrite Z.eqb_refl|]; reflexivity. Qed.
+
+Lemma mark_time_bounds : forall o, (o_now o <= o_rel o)%Z -> (o_now o <= mark_time o <= o_rel o)%Z.
+Proof. intros o H. unfold mark_time. destruct marks_restamped; lia. Qed.
+
+Lemma restamp_some : forall o t, exists t', restamp o (Some t) = Some t'
+  /\ (t <> o_now o -> t' = t) /\ ((o_now o <= o_rel o)%Z -> (t <= t')%Z) /\ (marks_restamped = false -> t' = t).
+Proof.
+  intros o t. unfold restamp. destruct marks_restamped.
+  - destruct (t =? o_now o)%Z eqn:E.
+    + apply Z.eqb_eq in E. exists (o_rel o). split; [reflexivity|]. split; [congruence|]. split; [lia|discriminate].
+    + exists t. split; [reflexivity|]. split; [reflexivity|]. split; [lia|reflexivity].
+  - exists t. split; [reflexivity|]. split; [reflexivity|]. split; [lia|reflexivity].
+Qed.
+
 Lemma fresh_marks_timed_lemma : forall dec packer nid o fs used existing pl p,
   plan_with dec o fs used existing = inr pl -> o_instant o = false ->
   In p (pl_packs pl) -> pp_todo p = MarkDelete \/ pp_todo p = Repack ->
   exists f e, In f (out_index (execute packer nid o fs pl)) /\ In e (f_del f)
-              /\ p_id e = pp_id p /\ p_blobs e = pp_blobs p /\ p_time e = Some (o_now o).
+              /\ p_id e = pp_id p /\ p_blobs e = pp_blobs p /\ p_time e = Some (mark_time o).
 Proof.
   intros dec packer nid o fs used existing pl p P I Hp K.
   pose proof (plan_with_facts _ _ _ _ _ _ P) as PF.
@@ -25,11 +44,36 @@ Proof.
   { eapply forced_in_rewritten; [exact PF|exact Hp|]. rewrite I. destruct K as [K|K]; rewrite K; assumption. }
   assert (Hpr : In p (processed pl)) by (apply filter_In; split; [exact Hp|apply in_rewritten_iff; exact IR]).
   unfold execute. destruct (pl_rewritten pl) eqn:R; [destruct IR|]. cbn [out_index].
-  eexists. exists (to_ipack (o_now o) TSet p). split; [apply in_or_app; right; left; reflexivity|].
+  eexists. exists (del_entry o (to_ipack (o_now o) TSet p)). split; [apply in_or_app; right; left; reflexivity|].
   cbn [f_del]. split.
-  - apply in_or_app. right. unfold sec_del. apply in_flat_map. exists p. split; [exact Hpr|].
+  - apply in_map. apply in_or_app. right. unfold sec_del. apply in_flat_map. exists p. split; [exact Hpr|].
     rewrite I. destruct K as [K|K]; rewrite K; [rewrite X1|rewrite X2]; left; reflexivity.
-  - repeat split.
+  - split; [reflexivity|]. split; [reflexivity|]. cbn [del_entry to_ipack p_time new_time]. apply restamp_now.
+Qed.
+
+(* the weaker fact the property needs: the mark is not earlier than the run that set it, and not later than the
+   moment the index holding it was written *)
+Lemma fresh_marks_not_before_lemma : forall dec packer nid o fs used existing pl p,
+  plan_with dec o fs used existing = inr pl -> o_instant o = false -> (o_now o <= o_rel o)%Z ->
+  In p (pl_packs pl) -> pp_todo p = MarkDelete \/ pp_todo p = Repack ->
+  exists f e t, In f (out_index (execute packer nid o fs pl)) /\ In e (f_del f)
+              /\ p_id e = pp_id p /\ p_blobs e = pp_blobs p /\ p_time e = Some t /\ (o_now o <= t <= o_rel o)%Z.
+Proof.
+  intros dec packer nid o fs used existing pl p P I Le Hp K.
+  destruct (fresh_marks_timed_lemma dec packer nid o fs used existing pl p P I Hp K) as [f [e [A [B [C [D E]]]]]].
+  exists f, e, (mark_time o). repeat split; try assumption; apply mark_time_bounds; exact Le.
+Qed.
+
+Lemma fresh_marks_plan_time_lemma : forall dec packer nid o fs used existing pl p,
+  marks_restamped = false ->
+  plan_with dec o fs used existing = inr pl -> o_instant o = false ->
+  In p (pl_packs pl) -> pp_todo p = MarkDelete \/ pp_todo p = Repack ->
+  exists f e, In f (out_index (execute packer nid o fs pl)) /\ In e (f_del f)
+              /\ p_id e = pp_id p /\ p_blobs e = pp_blobs p /\ p_time e = Some (o_now o).
+Proof.
+  intros dec packer nid o fs used existing pl p M P I Hp K.
+  destruct (fresh_marks_timed_lemma dec packer nid o fs used existing pl p P I Hp K) as [f [e [A [B [C [D E]]]]]].
+  exists f, e. repeat split; try assumption. rewrite E. unfold mark_time. rewrite M. reflexivity.
 Qed.
 
 (* the outcome of the index entry of a pack left marked (KeepMarked) by a non-instant run: still in
@@ -102,12 +146,15 @@ Proof.
   - intro K. destruct T as [T|[T|T]]; congruence.
 Qed.
 
-(* a pack left marked by a non-instant run keeps its place in `packs_to_delete` and its old mark time *)
+(* a pack left marked by a non-instant run keeps its place in `packs_to_delete`; its mark time is unchanged
+   (unless it is, to the nanosecond, the plan time of this run and the source re-stamps: then it moves FORWARD to the
+   release time) *)
 Lemma kept_marks_keep_time_lemma : forall dec packer nid o fs used existing pl p t,
   plan_with dec o fs used existing = inr pl -> o_instant o = false ->
   In p (pl_packs pl) -> pp_todo p = KeepMarked -> pp_time p = Some t ->
-  exists f e, In f (out_index (execute packer nid o fs pl)) /\ In e (f_del f)
-              /\ p_id e = pp_id p /\ p_blobs e = pp_blobs p /\ p_time e = Some t.
+  exists f e t', In f (out_index (execute packer nid o fs pl)) /\ In e (f_del f)
+              /\ p_id e = pp_id p /\ p_blobs e = pp_blobs p /\ p_time e = Some t'
+              /\ (t <> o_now o -> t' = t) /\ ((o_now o <= o_rel o)%Z -> (t <= t')%Z) /\ (marks_restamped = false -> t' = t).
 Proof.
   intros dec packer nid o fs used existing pl p t P I Hp K Tm.
   pose proof (plan_with_facts _ _ _ _ _ _ P) as PF.
@@ -117,11 +164,13 @@ Proof.
   destruct (in_rewritten pl p) eqn:IR.
   - assert (Hpr : In p (processed pl)) by (apply filter_In; split; assumption).
     apply in_rewritten_iff in IR. unfold execute. destruct (pl_rewritten pl) eqn:R; [destruct IR|]. cbn [out_index].
-    eexists. exists (to_ipack (o_now o) TKeepOrSet p). split; [apply in_or_app; right; left; reflexivity|].
+    destruct (restamp_some o t) as [t' [R1 [R2 [R3 R4]]]].
+    eexists. exists (del_entry o (to_ipack (o_now o) TKeepOrSet p)), t'. split; [apply in_or_app; right; left; reflexivity|].
     cbn [f_del]. split.
-    + apply in_or_app. right. unfold sec_del. apply in_flat_map. exists p. split; [exact Hpr|].
+    + apply in_map. apply in_or_app. right. unfold sec_del. apply in_flat_map. exists p. split; [exact Hpr|].
       rewrite I, K, X3. left. reflexivity.
-    + repeat split. cbn [to_ipack p_time new_time]. rewrite Tm. reflexivity.
+    + split; [reflexivity|]. split; [reflexivity|]. split; [cbn [del_entry to_ipack p_time new_time]; rewrite Tm; exact R1|].
+      split; [exact R2|]. split; [exact R3|exact R4].
   - assert (NR : ~ In (pp_idx p) (pl_rewritten pl)) by (intro X; apply in_rewritten_iff in X; congruence).
     assert (UT : In f (untouched pl fs)).
     { unfold untouched. apply in_map_iff. exists (k, f). split; [reflexivity|].
@@ -129,8 +178,20 @@ Proof.
       apply Bool.negb_true_iff. destruct (existsb (Nat.eqb k) (pl_rewritten pl)) eqn:X; [|reflexivity].
       exfalso. apply NR. apply existsb_exists in X. destruct X as [y [Hy Ey]]. apply Nat.eqb_eq in Ey. subst y.
       rewrite N2. exact Hy. }
-    exists f, ip. split.
+    exists f, ip, t. split.
     + unfold execute. destruct (pl_rewritten pl) eqn:R; cbn [out_index]; [eapply nth_error_In; eauto|].
       apply in_or_app. left. exact UT.
-    + split; [exact N3|]. split; [symmetry; exact E1|]. split; [symmetry; exact E2|congruence].
+    + split; [exact N3|]. split; [symmetry; exact E1|]. split; [symmetry; exact E2|]. split; [congruence|].
+      split; [reflexivity|]. split; [lia|reflexivity].
+Qed.
+
+Lemma survive_keep_delete_lemma : forall dec packer nid o fs used existing pl out,
+  prune_with dec packer nid o fs used existing = inr (pl, out) -> o_instant o = false ->
+  forall i, In i (out_removed out) ->
+    exists f p t, In f fs /\ In p (f_del f) /\ p_id p = i /\ p_time p = Some t
+                  /\ forall now1, (now1 <= t)%Z -> (now1 + o_keep_delete o <= o_now o)%Z.
+Proof.
+  intros dec packer nid o fs used existing pl out H I i Hi.
+  destruct (only_unused_removed_lemma _ _ _ _ _ _ _ _ _ H i Hi) as [X|[f [p [t [pp [A [B [C [D [E _]]]]]]]]]]; [congruence|].
+  exists f, p, t. repeat split; try assumption. intros now1 L. lia.
 Qed.
